@@ -319,11 +319,17 @@ func copyRepo(dst string) (int, error) {
 	return n, err
 }
 
+// coarse is set when the working tree contains concurrency the injector
+// cannot hand to the simulator (channels, select, ...): the cooperative
+// phases then run against the plain copy, with scheduling points between
+// operations only (the race engine is unaffected).
+var coarse []string
+
 // build builds one engine against a scratch copy of /repo.
 func build(sc *scratch, ph phase) (bin string, info map[string]interface{}, err error) {
 	info = map[string]interface{}{}
 	copyName := "repo"
-	if ph.Inject {
+	if ph.Inject && coarse == nil {
 		copyName = "repo-yield"
 		if ph.Fine {
 			copyName = "repo-yield-fine"
@@ -337,15 +343,23 @@ func build(sc *scratch, ph phase) (bin string, info map[string]interface{}, err 
 		}
 		info["repo_files_copied"] = n
 	}
-	if ph.Inject {
+	if ph.Inject && coarse == nil {
 		if _, err := os.Stat(filepath.Join(repoCopy, "simhook")); err != nil {
-			sites, files, err := injectYields(repoCopy, ph.Fine || os.Getenv("VERIF_YIELD_FINE") == "1")
+			sites, files, unsupported, err := injectYields(repoCopy, ph.Fine || os.Getenv("VERIF_YIELD_FINE") == "1")
 			if err != nil {
 				return "", info, fmt.Errorf("yield injection: %w", err)
+			}
+			if len(unsupported) > 0 {
+				coarse = unsupported
+				fmt.Printf("vcheck: NOTE qframe now uses concurrency the simulator cannot own (%s); the cooperative phases run at operation granularity\n", strings.Join(unsupported, "; "))
+				return build(sc, ph)
 			}
 			info["yield_sites"] = sites
 			info["instrumented_files"] = files
 		}
+	}
+	if ph.Inject && coarse != nil {
+		info["coarse_because"] = coarse
 	}
 	mod, err := os.ReadFile(filepath.Join(verifDir, "go.mod"))
 	if err != nil {
@@ -362,6 +376,9 @@ func build(sc *scratch, ph phase) (bin string, info map[string]interface{}, err 
 		return "", info, err
 	}
 	bin = filepath.Join(sc.dir, ph.Engine+".test")
+	if ph.Inject && coarse != nil {
+		bin = filepath.Join(sc.dir, ph.Engine+".coarse.test")
+	}
 	if ph.Fine {
 		bin = filepath.Join(sc.dir, ph.Engine+".fine.test")
 	}
@@ -369,7 +386,7 @@ func build(sc *scratch, ph phase) (bin string, info map[string]interface{}, err 
 		bin = filepath.Join(sc.dir, ph.Engine+".race.test")
 	}
 	tags := "verif"
-	if ph.Inject {
+	if ph.Inject && coarse == nil {
 		tags = "verif,yieldinject"
 	}
 	args := []string{"test", "-c", "-tags", tags, "-trimpath", "-modfile", modfile, "-o", bin}
@@ -465,6 +482,9 @@ func runWorker(bin string, sc *scratch, id, tier string, ph phase, round, w int,
 		env = append(env, "GORACE=halt_on_error=1 exitcode=66")
 	}
 	env = append(env, ph.Env...)
+	if ph.Inject && coarse != nil {
+		env = append(env, "VERIF_COARSE=1")
+	}
 	cmd.Env = env
 	var out bytes.Buffer
 	cmd.Stdout, cmd.Stderr = &out, &out
